@@ -161,6 +161,16 @@ Fixpoint mon_evs (m : mst) (d : dgram) (l : list ev) : mst * list obs * list obs
       (m2, i1 ++ i2, r1 ++ r2)
   end.
 
+(* the same registration from k goroutines at once: the rule applied k times *)
+Fixpoint mon_regs (m : mst) (e : eaddr) (f c cb : N) (n : nat) : mst * list obs :=
+  match n with
+  | O => (m, [])
+  | S n' =>
+      let '(m1, r1) := mon_addresp m e f c cb in
+      let '(m2, r2) := mon_regs m1 e f c cb n' in
+      (m2, r1 ++ r2)
+  end.
+
 (* arrivals back to back: the rule applied arrival by arrival *)
 Fixpoint mon_seq (m : mst) (l : list (N * dgram)) : mst * list obs :=
   match l with
@@ -211,6 +221,10 @@ Definition mon (m : mst) (o : op) (out : list obs) : mst * verdict :=
   | Inbound p d =>
       let '(m1, inv) := mon_inbound m p d in
       (m1, check (same_multiset eqb_obs_invoke inv (filter is_invoke out)) CL_INVOKE)
+  | ParRegister e f c cb k =>
+      (* exactly one of the k identical registrations is accepted (none if the callback is pending already) *)
+      let '(m1, rets) := mon_regs m e f c cb (N.to_nat k) in
+      (m1, check (same_multiset eqb_obs_ret rets (filter is_ret out)) CL_REGISTER ++ no_invokes out)
   | SeqArrive l =>
       let '(m1, inv) := mon_seq m l in
       (m1, check (same_multiset eqb_obs_invoke inv (filter is_invoke out)) CL_INVOKE)
